@@ -250,6 +250,10 @@ def new_version(data, allow_custom=None, **kwargs):
     )
 
     cls = type(data)
+    if isinstance(data, stix2.base._STIXBase) and 'modified' not in kwargs \
+            and custom_props.get('modified') is not None:
+        kwargs['modified'] = custom_props['modified']
+
     if 'modified' in kwargs:
         new_modified = parse_into_datetime(
             kwargs['modified'], precision='millisecond',
@@ -272,6 +276,13 @@ def new_version(data, allow_custom=None, **kwargs):
         kwargs['modified'] = new_modified
 
     new_obj_inner.update(kwargs)
+
+    # A value given through custom_properties replaces the old value too (the
+    # constructor lets plain keyword arguments win over custom_properties).
+    if isinstance(data, stix2.base._STIXBase):
+        for prop in custom_props:
+            if prop not in kwargs:
+                new_obj_inner.pop(prop, None)
 
     # Set allow_custom appropriately if versioning an object.  We will ignore
     # it for dicts.
